@@ -77,23 +77,59 @@ def gen_cases(ctx):
     for gi in (0, 1, 2, 3):
         for mi in (0, 1):
             runs.append(gen_run(rng, ctx, dict(gn_interval=gi, max_iter=mi)))
+    # time limit 0: MaxTime at the first check unless already converged
+    for _ in range(ctx.n(6, 40)):
+        r = gen_run(rng, ctx, dict(stop_at=-1, crit=rng.choice(sorted(SUPPORTED))))
+        r["max_time_ns"] = 0; r["kind"] = "maxtime"
+        runs.append(r)
+    # no-progress plateau: tiny gradient at huge |u| so that u + p == u in binary64 (acceleration off), eps stays above the tolerance
+    for _ in range(ctx.n(6, 40)):
+        runs.append(plateau_run(rng))
     for _ in range(ctx.n(260, 2600)):
         runs.append(gen_run(rng, ctx))
     return runs
+
+def plateau_run(rng):
+    N = rng.choice([1, 2, 3]); nu = rng.choice([1, 2])
+    P = dict(N=N, nx=1, nu=nu, nh=0, nhN=0, nc=0, ncN=0, A=[[0.5]], B=[[0.0] * nu], fa=[0.0], fb=[0.0], Hx=[], Hu=[], hq=[],
+             w=[0.0] + [2.0 ** -60] * nu, ref=[0.0] * (1 + nu), w4=[0.0] * (1 + nu), HN=[], hNq=[], wN=[0.0], refN=[0.0], wN4=[0.0],
+             Cx=[], cq=[], CN=[], cNq=[], Dlb=[], Dub=[], DNlb=[], DNub=[], x0=[1.0])
+    mnp = rng.choice([0, 1, 3])
+    return dict(op="solve", P=P, Ulb=[-INF] * nu, Uub=[INF] * nu, u0=[rng.choice([1, -1]) * 2.0 ** 50] * (N * nu), y=[], mu=[],
+                crit=rng.choice(["ProjGradNorm", "ProjGradNorm2", "FPRNorm"]), tol=2.0 ** -40, max_iter=50, gn_interval=rng.choice([0, 1, 2]),
+                gn_sticky=1, reset_lbfgs=0, chol=1, disable_acc=1, always=rng.randint(0, 1), L0=1.0, max_no_progress=mnp, mem=3,
+                stop_at=-1, termonly=0, kind="plateau")
+
+def tie_runs(runs, outs, limit):
+    """second phase: re-run with tolerance EXACTLY equal to a reported eps_j (the first record whose eps is below all earlier ones):
+    the solver must return Converged at record j (eps <= tolerance, not <)"""
+    out = []
+    for r, o in zip(runs, outs):
+        if len(out) >= limit:
+            break
+        if r["crit"] not in SUPPORTED or "records" not in o or r["stop_at"] >= 0 or r.get("kind") or r["termonly"]:
+            continue
+        eps = [unhex(rc["eps"]) for rc in o["records"]]
+        for j in range(1, len(eps)):
+            if math.isfinite(eps[j]) and eps[j] > 0 and all(e > eps[j] for e in eps[:j]) and j < r["max_iter"]:
+                t = dict(r); t["tol"] = eps[j]; t["tie_at"] = j; t["kind"] = "tie"
+                out.append(t)
+                break
+    return out
 
 def to_input(r):
     c = dict(P=r["P"], u=[], y=[], mu=[])
     toks = c12.ocp_in(c).split()[:-3]
     parts = ["solve", " ".join(toks), vec_in(r["Ulb"]), vec_in(r["Uub"]), vec_in(r["u0"]), vec_in(r["y"]), vec_in(r["mu"]),
-             "%d %s %d %d %d %d %d %d %d %s %d %d %d %d" % (CRITS.index(r["crit"]), hexf(r["tol"]), r["max_iter"], r["gn_interval"], r["gn_sticky"],
-                                                          r["reset_lbfgs"], r["chol"], r["disable_acc"], r["always"], hexf(r["L0"]),
-                                                          r["max_no_progress"], r["mem"], r["stop_at"], r["termonly"])]
+             "%d %s %d %d %d %d %d %d %d %s %d %d %d %d %d" % (CRITS.index(r["crit"]), hexf(r["tol"]), r["max_iter"], r["gn_interval"], r["gn_sticky"],
+                                                             r["reset_lbfgs"], r["chol"], r["disable_acc"], r["always"], hexf(r["L0"]),
+                                                             r["max_no_progress"], r["mem"], r["stop_at"], r["termonly"], r.get("max_time_ns", -1))]
     return " ".join(parts)
 
 def describe(r):
     P = r["P"]
     return {k: r[k] for k in ("crit", "tol", "max_iter", "gn_interval", "gn_sticky", "reset_lbfgs", "chol", "disable_acc", "always", "L0",
-                              "max_no_progress", "mem", "stop_at", "termonly", "Ulb", "Uub")} | {"dims": [P[k] for k in ("N", "nx", "nu", "nh", "nhN", "nc", "ncN")]}
+                              "max_no_progress", "mem", "stop_at", "termonly", "Ulb", "Uub")} | {k: r[k] for k in ("max_time_ns", "tie_at", "kind") if k in r} | {"dims": [P[k] for k in ("N", "nx", "nu", "nh", "nhN", "nc", "ncN")]}
 
 # --------------------------------------------------------------------------- independent evaluation
 def U(o, k):
@@ -118,7 +154,8 @@ def clamp(v, l, u):
 
 def proj_step(r, u, g, gamma):
     nu = r["P"]["nu"]
-    return [clamp(u[i] - gamma * g[i], r["Ulb"][i % nu], r["Uub"][i % nu]) - u[i] for i in range(len(u))]
+    # Π_U(u − γg) − u written as a clamp of the step (the same real number; no cancellation at huge |u|)
+    return [clamp(-gamma * g[i], r["Ulb"][i % nu] - u[i], r["Uub"][i % nu] - u[i]) for i in range(len(u))]
 
 def crit_value(crit, r, u, g, gamma):
     """documented residual of the selected criterion from (u, ∇ψ(u), γ)"""
@@ -182,6 +219,18 @@ def oracle(r, o, stats):
         bad.append(("C13:interrupted-without-request", "no stop was requested"))
     if st == "Busy":
         bad.append(("C13:returned-busy", "solver returned Busy"))
+    if "tie_at" in r and not (st == "Converged" and o["iterations"] == r["tie_at"] and eps == r["tol"]):
+        bad.append(("C13:eps-equal-to-tolerance-not-converged", "tolerance set exactly to eps_%d=%r of this run: expected Converged at iteration %d, got %s at %d with eps=%r"
+                    % (r["tie_at"], r["tol"], r["tie_at"], st, o["iterations"], eps)))
+    if st == "MaxTime" and r.get("max_time_ns", -1) < 0:
+        bad.append(("C13:maxtime-without-time-limit", "MaxTime although the limit is 5 minutes"))
+    if r.get("max_time_ns", -1) == 0 and st not in ("MaxTime", "Converged"):
+        bad.append(("C13:zero-time-limit-ignored", "max_time = 0 but status %s" % st))
+    if st == "NoProgress":
+        need = r["max_no_progress"] + 2
+        tail = [rc["xu"] for rc in recs[-need:]]
+        if len(recs) < need or any(t != tail[0] for t in tail):
+            bad.append(("C13:noprogress-but-iterates-moved", "NoProgress with max_no_progress=%d but the last %d iterates are not all identical" % (r["max_no_progress"], need)))
     for k, rc in enumerate(recs[:-1]):
         if rc["status"] != "Busy" or rc["k"] != k:
             bad.append(("C13:record-sequence", "record %d has k=%d status=%s" % (k, rc["k"], rc["status"]))); break
@@ -332,7 +381,7 @@ def terms_for(r, o, ctx, stats):
         out.append(("c13", "(KCrit %s %s %s %d %s %s %s %s (Some %s))" % (crit, Ul, Uu, N, coqf(gamma), coqvec(u), coqvec(g), coqvec(p), coqf(rc["eps"]))))
         last = idx == len(recs) - 1
         if not last:
-            out.append(("c13", "(KStat %s %s %d %d 0 %d false StBusy)" % (coqf(r["tol"]), coqf(rc["eps"]), rc["k"], r["max_iter"], r["max_no_progress"])))
+            out.append(("c13", "(KStat %s %s false %d %d 0 %d false StBusy)" % (coqf(r["tol"]), coqf(rc["eps"]), rc["k"], r["max_iter"], r["max_no_progress"])))
             nxt = recs[idx + 1]
             tau = unhex(rc["tau"])
             if rc["nJ"] >= 0 and not r["disable_acc"]:
@@ -347,12 +396,13 @@ def terms_for(r, o, ctx, stats):
                 out.append(("run", "(RLs %s %s %s %s %s %s %s)" % (coqf(beta), coqf(gamma), coqf(L), coqf(rc["phi"]), coqf(pp), coqf(nxt["phi"]), coqf(lstol))))
         else:
             st = o["status"]
-            if st in ("Converged", "MaxIter", "NotFinite"):
-                out.append(("c13", "(KStat %s %s %d %d 0 %d false %s)" % (coqf(r["tol"]), coqf(rc["eps"]), rc["k"], r["max_iter"], r["max_no_progress"], st_coq(st))))
+            te = coqbool(r.get("max_time_ns", -1) == 0)
+            if st in ("Converged", "MaxIter", "NotFinite", "MaxTime"):
+                out.append(("c13", "(KStat %s %s %s %d %d 0 %d false %s)" % (coqf(r["tol"]), coqf(rc["eps"]), te, rc["k"], r["max_iter"], r["max_no_progress"], st_coq(st))))
             elif st == "NoProgress":
-                out.append(("c13", "(KStat %s %s %d %d %d %d false %s)" % (coqf(r["tol"]), coqf(rc["eps"]), rc["k"], r["max_iter"], r["max_no_progress"] + 1, r["max_no_progress"], st_coq(st))))
+                out.append(("c13", "(KStat %s %s %s %d %d %d %d false %s)" % (coqf(r["tol"]), coqf(rc["eps"]), te, rc["k"], r["max_iter"], r["max_no_progress"] + 1, r["max_no_progress"], st_coq(st))))
             elif st == "Interrupted":
-                out.append(("c13", "(KStat %s %s %d %d 0 %d true %s)" % (coqf(r["tol"]), coqf(rc["eps"]), rc["k"], r["max_iter"], r["max_no_progress"], st_coq(st))))
+                out.append(("c13", "(KStat %s %s %s %d %d 0 %d true %s)" % (coqf(r["tol"]), coqf(rc["eps"]), te, rc["k"], r["max_iter"], r["max_no_progress"], st_coq(st))))
             out.append(("c13", "(KExit %s %s %s %s %s)" % (st_coq(st), coqbool(r["always"] == 1), coqvec(r["u0"]), coqvec(uh), coqvec(U(o, "u_out")))))
             overw = st in ("Converged", "Interrupted") or r["always"] == 1
             m = N * P["nc"] + P["ncN"]
@@ -424,8 +474,24 @@ def run(ctx):
     check_properties(ctx)
     if not build_driver(ctx, "C13"):
         return
-    runs = gen_cases(ctx)
+    if ctx.replay_path:
+        rp = json.load(open(ctx.replay_path))
+        case = (rp.get("replay") or {}).get("case")
+        if case is None:
+            ctx.log("replay file has no stored case (a broken proof/correspondence is re-checked by a normal run)")
+            runs = gen_cases(ctx)
+        else:
+            ctx.log("replaying the stored run: %s" % describe(case))
+            runs = [case]
+    else:
+        runs = gen_cases(ctx)
     outs = run_cases(ctx, runs)
+    if outs is not None and len(outs) == len(runs) and not ctx.replay_path:
+        ties = tie_runs(runs, outs, ctx.n(40, 300))
+        touts = run_cases(ctx, ties) if ties else []
+        if touts is not None and len(touts) == len(ties):
+            runs += ties; outs += touts
+            ctx.coverage["tie_runs"] = len(ties)
     if outs is None or len(outs) != len(runs):
         ctx.broke("correspondence", "drv_C13", "driver returned %s results for %d runs" % (None if outs is None else len(outs), len(runs)))
         return
@@ -447,7 +513,7 @@ def run(ctx):
             ctx.count("lbfgs_steps", sum(1 for rc in o["records"] if not rc["gn"] and rc["status"] == "Busy"))
             accessor_observation(r, o, stats)
         for sig, msg in oracle(r, o, stats):
-            ctx.violation(sig, msg, {"driver": "drv_C13", "input": to_input(r), "run": describe(r),
+            ctx.violation(sig, msg, {"driver": "drv_C13", "input": to_input(r), "run": describe(r), "case": {a: b for a, b in r.items() if not a.startswith("_")},
                                      "impl_output": {a: b for a, b in o.items() if a != "records"},
                                      "final_record": o["records"][-1] if o.get("records") else None, "why": msg})
         for mod, t in terms_for(r, o, ctx, stats):
